@@ -5,6 +5,8 @@ package main
 
 import (
 	"fmt"
+	"os"
+	"strconv"
 	"go/ast"
 	"go/token"
 	"go/types"
@@ -87,6 +89,9 @@ type FnCtx struct {
 	usedLemmas map[string]bool
 	inlineLoops map[*ssa.BasicBlock]*loopInfo
 	concrete bool
+	noMerge bool
+	pdoms map[*ssa.Function]map[*ssa.BasicBlock]*ssa.BasicBlock
+	splitPass bool
 	assumedClauses map[string]bool
 	entryInfo *EntryInfo
 }
@@ -99,7 +104,7 @@ func (e *Engine) newFnCtx(fn *ssa.Function, ct *Contract) *FnCtx {
 		ordinals: map[ssa.Instruction]int{}, callOrd: map[ssa.Instruction]string{},
 		cellsByName: map[string][]*Cell{}, allCells: map[*ssa.Alloc]*Cell{}, maxPaths: 6000,
 		usedAssumed: map[string]bool{}, usedIntrinsics: map[string]bool{}, numbered: map[*ssa.Function]bool{},
-		calledKeys: map[string]bool{}, usedGlobals: map[string]bool{}, usedLemmas: map[string]bool{}, assumedClauses: map[string]bool{}, inlineLoops: map[*ssa.BasicBlock]*loopInfo{}}
+		calledKeys: map[string]bool{}, usedGlobals: map[string]bool{}, usedLemmas: map[string]bool{}, pdoms: map[*ssa.Function]map[*ssa.BasicBlock]*ssa.BasicBlock{}, assumedClauses: map[string]bool{}, inlineLoops: map[*ssa.BasicBlock]*loopInfo{}}
 	return fc
 }
 
@@ -264,6 +269,30 @@ func (fc *FnCtx) numberInstrs(fn *ssa.Function, prefix string) {
 // ---------- obligations ----------
 
 func (fc *FnCtx) oblige(s *State, name, kind string, props []string, text string, goal *Term, where string) {
+	if fc.splitPass {
+		// second pass: only the clauses the split was declared for (and the cuts/lemma premises that support them)
+		keep := kind == "assert" || kind == "lemma-premise"
+		if kind == "ensures" {
+			for _, sp := range fc.ct.Splits {
+				for _, l := range sp.For {
+					if strings.HasSuffix(name, ".ensures["+l+"]") {
+						keep = true
+					}
+				}
+			}
+		}
+		if !keep {
+			return
+		}
+	} else if kind == "ensures" {
+		for _, sp := range fc.ct.Splits {
+			for _, l := range sp.For {
+				if strings.HasSuffix(name, ".ensures["+l+"]") {
+					return // proved in the split pass
+				}
+			}
+		}
+	}
 	if goal.isTrue() {
 		// still record it: a trivially true obligation is discharged by construction
 		fc.obls = append(fc.obls, &Obligation{Func: fc.key, Name: name, Kind: kind, Props: props, Text: text, Where: where,
@@ -288,6 +317,7 @@ func (fc *FnCtx) run() (err error) {
 		}
 	}()
 	fn := fc.fn
+	fc.noMerge = fc.ct.NoMerge
 	if len(fn.Blocks) == 0 {
 		return fmt.Errorf("%s: no Go body (assembly)", fc.key)
 	}
@@ -343,6 +373,15 @@ func (fc *FnCtx) run() (err error) {
 	fc.oldHeap = s.snapshotHeap()
 	states := []*State{s}
 	for _, sp := range fc.ct.Splits {
+		if (len(sp.For) > 0) != fc.splitPass {
+			continue
+		}
+		if only := os.Getenv("DVC_SPLIT_ONLY"); only != "" && sp.Expr != nil {
+			// development aid: restrict an expression split to one value
+			if v, err := strconv.Atoi(only); err == nil {
+				sp.Lo, sp.Hi = v, v
+			}
+		}
 		pv, ok := fc.entry[sp.Var]
 		if ok && sp.Table != "" {
 			gi := fc.eng.globals[sp.Table]
@@ -500,6 +539,17 @@ func (fc *FnCtx) atReturn(s *State, rets []Val) {
 		Hyps: s.pc[:len(s.pc):len(s.pc)], Goal: tFalse, Trace: s.trace, PathID: fc.npaths})
 	env := fc.entryEnv(s)
 	fc.bindResults(env, rets)
+	bindGhosts := func() {
+		for _, g := range fc.ct.Ghosts {
+			if t, ok := s.ghosts[g]; ok {
+				env.names[g] = mathInt(t)
+			} else {
+				env.names[g] = mathInt(fc.fresh("ghost_"+g, SInt))
+			}
+		}
+	}
+	bindGhosts()
+	defer func() {}()
 	for _, h := range fc.ct.Hints {
 		if h.Where == "exit" {
 			fc.applyHint(s, env, h, "exit")
@@ -510,6 +560,7 @@ func (fc *FnCtx) atReturn(s *State, rets []Val) {
 			fc.applyHint(s, renv, h, "return")
 		}
 	}
+	bindGhosts()
 	for _, c := range fc.ct.Ensures {
 		if c.Assumed {
 			fc.assumedClauses[fmt.Sprintf("%s.ensures[%s]", fc.key, c.Label)] = true
